@@ -25,6 +25,8 @@ class Ctx:
         self.repo = Repo(root, overlay)
         self._types = None
         self._res = None
+        self._flow = None
+        self._effects = None
         self.use_cache = use_cache and not overlay
         self.chk = Check(prop, tier, seed)
         self.engines: list[PathEngine] = []
@@ -44,6 +46,22 @@ class Ctx:
         if self._res is None:
             self._res = Resolver(self.repo, self.types)
         return self._res
+
+    @property
+    def flow(self):
+        if self._flow is None:
+            from .dataflow import Flow
+
+            self._flow = Flow(self.repo, self.res)
+        return self._flow
+
+    @property
+    def effects(self):
+        if self._effects is None:
+            from .effects import Effects
+
+            self._effects = Effects(self.repo, self.res, self.flow)
+        return self._effects
 
     def engine(self, **kw) -> PathEngine:
         kw.setdefault("max_depth", 6 if self.thorough else 4)
@@ -70,7 +88,7 @@ class Ctx:
             )[:80]
 
 
-def run_property(prop, tier="quick", seed=0, overlay=None, root=REPO_ROOT, write=True, quiet=False):
+def run_property(prop, tier="quick", seed=0, overlay=None, root=REPO_ROOT, write=True, quiet=False, selftest=False):
     """Runs one property's rules; returns (exit_code, Check | None, error)."""
     try:
         ctx = Ctx(prop, tier, seed, root=root, overlay=overlay)
@@ -88,6 +106,16 @@ def run_property(prop, tier="quick", seed=0, overlay=None, root=REPO_ROOT, write
                 "resolver disagreement (oracle vs annotations): "
                 + "; ".join(ctx._res.disagreements[:3])
             )
+        if selftest:
+            from .selftest import runner
+
+            st, summary = runner.run_for_property(prop, seed, verbose=not quiet)
+            ctx.chk.analysed["selftest_corpus"] = summary
+            if st != 0:
+                raise AnalysisError(
+                    "self-validation corpus disagrees with the checker: "
+                    + "; ".join(summary.get("disagreements", [])[:3])
+                )
         ctx.record_analysed()
         code = ctx.chk.finish(write_evidence=write, quiet=quiet)
         return code, ctx.chk, None
@@ -132,13 +160,9 @@ def main(argv=None):
     if a.replay:
         finish(replay(prop, a.replay))
     tier = a.tier if a.tier in ("quick", "thorough") else "quick"
-    code, chk, err = run_property(prop, tier, seed, write=not a.no_evidence)
-    if code != 2 and tier == "thorough":
-        from .selftest import runner
-
-        st = runner.run_for_property(prop, seed)
-        if st != 0:
-            code = 2
+    code, chk, err = run_property(
+        prop, tier, seed, write=not a.no_evidence, selftest=(tier == "thorough")
+    )
     finish(code)
 
 
